@@ -40,45 +40,52 @@ Matches(e, ln) == e.e = ln.e /\ e.m = ln.m /\ e.p = ln.p /\ e.bp = ln.bp /\ e.rp
 \* the step the recorded lines describe, or a "none" choice when nothing enabled matches
 None == Choice("none", 1, 0, NoEv, <<>>)
 ChoiceOf ==
-  LET ln == Line(l) IN
+  LET ln == Line(l)
+      P  == Times(Z)
+      live == ~Z.done /\ ~PNothing(P)
+  IN
   CASE ln.k = "fired" ->
          LET kind == IF ln.w = "timer" THEN "timer" ELSE "action"
              c == Choice(kind, SideOf(ln.c), ln.m + 1, NoEv, <<>>)
-             cands == IF kind = "timer" THEN {x \in TimCands(Z) : Z.sd[x[1]].tim[x[2]].due = IT(Z)}
-                      ELSE {x \in ActCands(Z) : Z.sd[x[1]].act[x[2]].due = ST(Z)}
-             enabled == ~Z.done /\ ~Nothing(Z) /\ (IF kind = "timer" THEN TimerNext(Z) ELSE ActionNext(Z))
-                        /\ <<c.s, c.i>> \in cands
+             cands == IF kind = "timer" THEN {x \in TimCands(Z) : Z.sd[x[1]].tim[x[2]].due = P.it}
+                      ELSE {x \in ActCands(Z) : Z.sd[x[1]].act[x[2]].due = P.st}
+             enabled == live /\ (IF kind = "timer" THEN PTimerNext(P) ELSE PActionNext(P)) /\ <<c.s, c.i>> \in cands
          IN IF enabled THEN c ELSE None
     [] ln.k = "aggpop" ->
-         LET C == {x \in Z.pending : AtLeastNow(Z, x.t) = NT(Z) /\ x.s = SideOf(ln.c) /\ x.d = ln.d}
-         IN IF ~Z.done /\ ~Nothing(Z) /\ AggFirst(Z) /\ C # {}
+         LET C == {x \in Z.pending : AtLeastNow(Z, x.t) = P.nt /\ x.s = SideOf(ln.c) /\ x.d = ln.d}
+         IN IF live /\ PAggFirst(P) /\ C # {}
             THEN Choice("aggpop", SideOf(ln.c), (CHOOSE x \in C : TRUE).id, NoEv, <<>>) ELSE None
     [] ln.k = "agg" ->
          \* an aggregate delay pushed by a blocking expiry: the BlockingEnd event follows
          IF Has(l + 1) /\ Line(l + 1).k = "ev" /\ Line(l + 1).e = "BlockingEnd"
-            /\ ~Z.done /\ ~Nothing(Z) /\ BlkFirst(Z) /\ BlkSide(Z) = SideOf(Line(l + 1).c)
+            /\ live /\ PBlkFirst(P) /\ BlkSideAt(Z, P.bt) = SideOf(Line(l + 1).c)
          THEN [Choice("blk", SideOf(Line(l + 1).c), 0, NoEv,
                       OracleOf(ActsFrom(l + 2), NMach(Z, SideOf(Line(l + 1).c)))) EXCEPT !.agg = ln.d]
          ELSE None
     [] ln.k = "ev" ->
          LET s == SideOf(ln.c)
-             hasAgg == Has(l + 1) /\ Line(l + 1).k = "agg"
+             \* an `agg` line right after the event belongs to it only if the event's own `repl` /
+             \* `recv` line follows (otherwise it opens the next step, a blocking expiry)
+             hasAgg == Has(l + 2) /\ Line(l + 1).k = "agg"
+                       /\ ((ln.e = "PaddingSent" /\ Line(l + 2).k = "repl") \/ (ln.e = "TunnelSent" /\ Line(l + 2).k = "recv"))
              ri == IF hasAgg THEN l + 2 ELSE l + 1
-             hasRecv == Has(ri) /\ Line(ri).k = "recv"
+             hasRecv == Has(ri) /\ Line(ri).k \in {"recv", "repl"}
              ai == IF hasRecv THEN ri + 1 ELSE ri
              f == OracleOf(ActsFrom(ai), NMach(Z, s))
-         IN IF Z.done \/ Nothing(Z) THEN None
+         IN IF ~live THEN None
             ELSE IF ln.e = "BlockingEnd"
-            THEN (IF BlkFirst(Z) /\ BlkSide(Z) = s THEN Choice("blk", s, 0, NoEv, OracleOf(ActsFrom(l + 1), NMach(Z, s)))
+            THEN (IF PBlkFirst(P) /\ BlkSideAt(Z, P.bt) = s THEN Choice("blk", s, 0, NoEv, OracleOf(ActsFrom(l + 1), NMach(Z, s)))
                   ELSE None)
-            ELSE LET C == {c \in QueueCands(Z) : c[1] = s /\ Matches(c[2], ln)}
-                 IN IF QueueNext(Z) /\ C # {}
+            ELSE IF ~PQueueNext(P) THEN None
+            ELSE LET C == {c \in QueueCandsAt(Z, P.qt) : c[1] = s /\ Matches(c[2], ln)}
+                 IN IF C # {}
                     THEN [Choice("queue", s, 0, (CHOOSE c \in C : TRUE)[2], f) EXCEPT
                             !.agg = IF hasAgg THEN Line(l + 1).d ELSE -1,
-                            !.extra = IF hasRecv /\ ln.e = "TunnelSent" THEN Line(ri).t - (ln.t + Z.cf.delay) ELSE 0]
+                            !.extra = IF hasRecv /\ ln.e = "TunnelSent" /\ Line(ri).k = "recv"
+                                      THEN Line(ri).t - (ln.t + Z.cf.delay) ELSE 0]
                     ELSE None
     [] ln.k = "exit" ->
-         IF ~Z.done /\ Nothing(Z) THEN Choice("finish", 1, 0, NoEv, <<>>) ELSE None
+         IF ~Z.done /\ PNothing(P) THEN Choice("finish", 1, 0, NoEv, <<>>) ELSE None
     [] OTHER -> None
 
 Explains(r) ==
@@ -109,7 +116,7 @@ Over ==
   /\ l' = NextReset(l) /\ stats' = [stats EXCEPT !.finished = @ + 1]
   /\ UNCHANGED <<Z, sid, ok>>
 Lockstep ==
-  /\ Has(l) /\ Line(l).k \in {"fired", "ev", "exit", "agg", "aggpop", "recv"}
+  /\ Has(l) /\ Line(l).k \in {"fired", "ev", "exit", "agg", "aggpop", "recv", "repl"}
   /\ ~(Line(l).k = "exit" /\ (Z.done \/ Line(l).reason \in {"max_sim_iterations", "max_trace_length"}))
   /\ LET c == ChoiceOf
          r == ZStep(Z, c)
@@ -119,7 +126,7 @@ Lockstep ==
              /\ UNCHANGED <<sid, ok>>
         ELSE /\ PrintT("TV|DIVERGED|" \o ToJson([id |-> sid, l |-> l, got |-> Line(l),
                                                   want |-> IF c.kind = "none" THEN <<"no enabled step matches">> ELSE r.lines,
-                                                  now |-> Z.now, st |-> ST(Z), it |-> IT(Z), bt |-> BT(Z), qt |-> QT(Z)]))
+                                                  now |-> Z.now, st |-> ST(Z), it |-> IT(Z), bt |-> BT(Z), qt |-> QT(Z), nt |-> NT(Z)]))
              /\ l' = NextReset(l) /\ stats' = [stats EXCEPT !.diverged = @ + 1]
              /\ UNCHANGED <<Z, sid, ok>>
 Finish ==
